@@ -15,7 +15,7 @@ import sys
 from checks import common
 from checks import engine as E
 from lsfsim.runner import run_scenario
-from monitors.basic import NotifyMonitor, BrokerMonitor
+from monitors.basic import Monitor, NotifyMonitor, BrokerMonitor
 
 PROP = "C03"
 FAMILIES = ["sequential", "sequential", "fanout_ok", "fanout_ok", "fanout_fail", "general"]
@@ -132,6 +132,68 @@ def run_responses(i, extra):
     return check_responses(scn, meta, seed)
 
 
+class LaunchOrderMonitor(Monitor):
+    """The start event of a child execution is a consequence of handling the launching Task's event: by the time that
+    event is acknowledged, the child's start event has been handed to the broker."""
+
+    def __init__(self):
+        super(LaunchOrderMonitor, self).__init__()
+        self.launch_uids = set()
+        self.child_starts = 0
+        self.launch_acks = 0
+
+    def attach(self, res):
+        super(LaunchOrderMonitor, self).attach(res)
+        res.sim.broker.publish_hooks.append(self.on_publish)
+        res.sim.broker.observers.append(self.on_op)
+
+    def on_publish(self, ch, exchange, routing_key, body, props, queues, uid):
+        if exchange != "" or not routing_key.startswith("asl_workflow_events"):
+            return
+        try:
+            ctx = json.loads(body.decode("utf8") if isinstance(body, bytes) else body)["context"]
+            sm = ctx["StateMachine"]["Id"]
+            name = (ctx.get("State") or {}).get("Name")
+        except (ValueError, KeyError, TypeError, AttributeError):
+            return
+        if sm.endswith(":child") and not name:
+            self.child_starts += 1
+        elif sm.endswith(":parent") and name == "L":
+            self.launch_uids.add(uid)
+
+    def on_op(self, rec):
+        step, t, name, node, kw = rec
+        if name == "basic_ack" and node is not None and kw.get("uid") in self.launch_uids:
+            self.launch_uids.discard(kw["uid"])
+            self.launch_acks += 1
+            if self.child_starts < self.launch_acks:
+                self.add(PROP, "acked-before-child-start-published",
+                         "the event of the launching Task was acknowledged (ack #%d of such events) while only %d child "
+                         "start events had been published" % (self.launch_acks, self.child_starts))
+
+
+def check_children(scn, seed, label):
+    mons = [NotifyMonitor("C02", check_shape=False, liveness=False), BrokerMonitor(), LaunchOrderMonitor()]
+    ttl = scn["config"].get("execution_ttl", 600)
+    res = run_scenario(scn, seed, monitors=mons, horizon=ttl + 800)
+    findings = [f for f in res.findings if f["property"] == PROP]
+    if res.sim.errors:
+        findings.append({"property": PROP, "rule": "engine-exception", "witness": None,
+                         "detail": repr(res.sim.errors[0][:3]), "step": None, "t": None})
+    for f in findings:
+        f["child_label"] = label
+    E.attach_replay(findings, scn, seed, res)
+    probes = {"child-launch:runs": 1, "child-launch:" + label.split("/")[0]: 1, "launching-events-acked": mons[2].launch_acks}
+    return common.summarize_run(res, PROP, findings, True, None, probes, E.nontrivial_hash(scn, res))
+
+
+def run_children(i, extra):
+    from checks import c02
+    seed, scn, label = c02.make_child(i)
+    scn["config"]["execution_ttl"] = 600
+    return check_children(scn, seed, label)
+
+
 def main(argv):
     if len(argv) > 1 and argv[0] == "--replay":
         return replay(argv[1])
@@ -139,10 +201,12 @@ def main(argv):
     n = 2500 if tier == "quick" else 100000
     rep = common.Report(PROP)
     from checks import minimise as _MIN
-    rep.minimiser = lambda f: _MIN.scenario(f, lambda scn, seed: check(scn, seed)) if not f.get("token_meta") else f
+    rep.minimiser = lambda f: _MIN.scenario(f, lambda scn, seed: check(scn, seed)) if not (f.get("token_meta") or f.get("child_label")) else f
     for r in common.run_batch("checks.c03", "run_one", range(n), {"tier": tier}):
         rep.absorb(r)
     for r in common.run_batch("checks.c03", "run_responses", range(500 if tier == "quick" else 20000), {"tier": tier}):
+        rep.absorb(r)
+    for r in common.run_batch("checks.c03", "run_children", range(400 if tier == "quick" else 16000), {"tier": tier}):
         rep.absorb(r)
     return rep.finish(
         rule="1-4 concurrent executions of independently generated machines (families %s) per simulated run under a "
@@ -154,7 +218,9 @@ def main(argv):
              "queues are empty; a second slice drives .waitForTaskToken tasks (rpcmessage and startExecution flavours) with "
              "callback streams that leave orphaned responses (duplicate, late after the time-out, forged, truncated, ordinary "
              "reply before the callback, error reply) and applies the same exactly-once-ack and drain rules to the reply "
-             "queue; distinct = distinct (scenario, interleaving) hashes" % (
+             "queue; a third slice launches child executions in every form: the child's start event has been published by the "
+             "time the launching Task's event is acknowledged, and the same carrier / ack / drain rules hold for parent and "
+             "child; distinct = distinct (scenario, interleaving) hashes" % (
                  sorted(set(FAMILIES)), ", ".join(POLICIES)),
         assumptions=["no faults injected (crash/restart is C04)", "legal schedules only: per-queue FIFO, timers never early"])
 
@@ -162,7 +228,9 @@ def main(argv):
 def replay(path):
     with open(path) as f:
         rec = json.load(f)
-    if rec.get("token_meta"):
+    if rec.get("child_label"):
+        r = check_children(rec["scenario"], rec["seed"], rec["child_label"])
+    elif rec.get("token_meta"):
         r = check_responses(rec["scenario"], rec["token_meta"], rec["seed"])
     else:
         r = check(rec["scenario"], rec["seed"])
